@@ -148,6 +148,13 @@ def rule_admission_filter(ctx, res):
                         bad = truth
                     if isinstance(x, tuple) and x[0] == 'call' and x[1] == 'table::leading_bit_count' and term_int(y) == max_buckets:
                         own = truth
+            # `match bits { MAX_BUCKETS => .., n => .. }`: a switch on the value itself
+            if rel == 'int' and isinstance(a, tuple) and a[0] == 'call' and a[1] == 'table::leading_bit_count':
+                if isinstance(b2, tuple) and b2[0] == 'not':
+                    if max_buckets in b2[1]:
+                        own = False
+                elif b2 == max_buckets:
+                    own = True
             # `bits < MAX_BUCKETS` excludes the own id just as `bits != MAX_BUCKETS` does (at least as strict)
             if rel == 'lt' and truth is True and isinstance(a, tuple) and a[0] == 'call' and a[1] == 'table::leading_bit_count' and term_int(b2) == max_buckets:
                 own = False
